@@ -193,6 +193,10 @@ def pmap(fn, jobs, nproc=None, check=None, reserve=5.0):
                     r = fut.result()
                 except Exception as e:      # worker crashed: surface, do not hide
                     r = {"worker_exception": "%s: %s" % (type(e).__name__, e), "tb": traceback.format_exc()}
+                if check is not None and isinstance(r, dict) and r.get("timed_out"):
+                    check.exhaustive = False
+                    check.notes.append("time limit reached inside %s: bound %s completed" % (j.get("tag") if isinstance(j, dict) else j,
+                                                                                          (r.get("summary") or {}).get("bound")))
                 yield j, r
                 submit_more()
                 break
